@@ -9,7 +9,9 @@ import FP.Model.Enc.KCoverC
 import FP.Model.Enc.KLAEC
 import FP.Model.Enc.KMPEC
 import FP.Model.ParserJson
+import FP.Model.GreedyShortcut
 import FP.Model.Lexer
+import FP.Model.Literals
 import FP.Model.WalkDecodeRound
 import FP.Model.Enc.IgnoreBlock
 import FP.Model.C17Json
@@ -32,6 +34,6 @@ open Lean
 
 def encHandlersAll : List (String → Json → Option (Except String Json)) :=
   [handleKLAE, handleKMPE, handleKCover, handleMGS, handleMSC, handleMEF,
-   handleKFDC, handleKCoverC, handleKLAEC, handleKMPEC, FP.Parser.handleParser, FP.Lexer.handleLexer, FP.MFD.handleMFD, NX.handleNodeExpand, NX.handleNodeModes, NX.handleNodeModesCyc, handleK4, handleKFDCWitness, handleErrCheck, handleWidth, Safety.handleSafety, handleC17, handleIgnoreBlock, handleWalkSafety, handlePathSafety, handleRound]
+   handleKFDC, handleKCoverC, handleKLAEC, handleKMPEC, FP.Parser.handleParser, FP.Lexer.handleLexer, FP.Literals.handleLiterals, FP.MFD.handleMFD, NX.handleNodeExpand, NX.handleNodeModes, NX.handleNodeModesCyc, handleK4, handleKFDCWitness, handleErrCheck, handleWidth, Safety.handleSafety, handleC17, handleIgnoreBlock, handleWalkSafety, handlePathSafety, handleRound, handleGreedyShortcut]
 
 end FP
